@@ -13,6 +13,7 @@ import (
 	"testing/synctest"
 	"time"
 
+	"github.com/ansible/receptor/pkg/logger"
 	"github.com/ansible/receptor/pkg/netceptor"
 	"github.com/minio/highwayhash"
 )
@@ -109,6 +110,7 @@ type hSess struct {
 	sent     int
 	filter   func(n int, data []byte) (drop bool, dup bool, extra time.Duration) // auto mode fault injection
 	tap      func(data []byte)                                                   // observes every datagram sent on this end
+	stall    chan struct{}                                                       // non-nil: Send blocks until it is closed (back-pressure of a stream backend)
 }
 
 func (s *hSess) name() string { return s.from + ">" + s.to }
@@ -118,6 +120,13 @@ func (s *hSess) Send(d []byte) error {
 	case <-s.closed:
 		return io.ErrClosedPipe
 	default:
+	}
+	if st := s.stall; st != nil {
+		select {
+		case <-st:
+		case <-s.closed:
+			return io.ErrClosedPipe
+		}
 	}
 	cp := append([]byte(nil), d...)
 	if s.tap != nil {
@@ -251,6 +260,25 @@ type mesh struct {
 	idOf     map[string]string   // mesh name -> node ID when they differ (same-ID twins)
 	scripted map[string]bool     // names that are scripted peers (no real node)
 	recvd    map[string][][]byte // what each scripted peer has received (delivered messages)
+}
+
+// logYield turns selected log statements of the code under test into yield points: the logging goroutine
+// sleeps one virtual millisecond there, so that another goroutine (the handler of a message that arrives
+// on another link at the same moment) runs through the same code in the meantime. Only statements that
+// are issued outside of any lock are used (a sleeper that holds a mutex would freeze the bubble).
+func logYield(on bool) {
+	if !on {
+		logger.RegisterLogger(nil)
+		return
+	}
+	logger.RegisterLogger(func(level int, format string, v ...interface{}) {
+		for _, p := range []string{"Received routing update", "Node %s with epoch %d sent update", "Received service advertisement from"} {
+			if strings.HasPrefix(format, p) {
+				time.Sleep(time.Millisecond)
+				return
+			}
+		}
+	})
 }
 
 // wait: quiescence in a bubble; a short real pause when the mesh runs in real time (QUIC loss recovery).
